@@ -368,10 +368,22 @@ func (b *builder) summation(fs *ast.ForStmt, st *state) bool {
 	if pi, ok := post.X.(*ast.Ident); !ok || b.info.Uses[pi] != iobj {
 		return false
 	}
-	if len(fs.Body.List) != 1 {
+	if len(fs.Body.List) == 0 {
 		return false
 	}
-	as, ok := fs.Body.List[0].(*ast.AssignStmt)
+	// locals of the iteration (x := e, defined once each) may precede the accumulating assignment
+	var locals []*ast.AssignStmt
+	for _, s := range fs.Body.List[:len(fs.Body.List)-1] {
+		d, ok := s.(*ast.AssignStmt)
+		if !ok || d.Tok != token.DEFINE || len(d.Lhs) != 1 || len(d.Rhs) != 1 {
+			return false
+		}
+		if _, isID := d.Lhs[0].(*ast.Ident); !isID {
+			return false
+		}
+		locals = append(locals, d)
+	}
+	as, ok := fs.Body.List[len(fs.Body.List)-1].(*ast.AssignStmt)
 	if !ok || len(as.Lhs) != 1 || len(as.Rhs) != 1 {
 		return false
 	}
@@ -404,12 +416,18 @@ func (b *builder) summation(fs *ast.ForStmt, st *state) bool {
 	}
 	// the summand must not mention the accumulator
 	usesAcc := false
-	ast.Inspect(term, func(n ast.Node) bool {
-		if id, ok := n.(*ast.Ident); ok && b.info.Uses[id] == accObj {
-			usesAcc = true
-		}
-		return true
-	})
+	mentionsAcc := func(e ast.Node) {
+		ast.Inspect(e, func(n ast.Node) bool {
+			if id, ok := n.(*ast.Ident); ok && b.info.Uses[id] == accObj {
+				usesAcc = true
+			}
+			return true
+		})
+	}
+	mentionsAcc(term)
+	for _, d := range locals {
+		mentionsAcc(d.Rhs[0])
+	}
 	if usesAcc {
 		return false
 	}
@@ -420,6 +438,11 @@ func (b *builder) summation(fs *ast.ForStmt, st *state) bool {
 	inner := st.clone()
 	inner.env[iobj] = bound
 	nEff := len(inner.effects)
+	for _, d := range locals {
+		if obj := b.info.Defs[d.Lhs[0].(*ast.Ident)]; obj != nil {
+			inner.env[obj] = b.expr(d.Rhs[0], inner)
+		}
+	}
 	body := b.expr(term, inner)
 	_ = nEff // reads inside the summand are not effects of the step
 	b.sumDepth--
@@ -519,6 +542,11 @@ func zeroOf(t types.Type) sym.Expr {
 // Resolver finds the declaration and type information of a module function (set by the caller).
 var Resolver func(fn *types.Func) (*ast.FuncDecl, *types.Info)
 
+// InlineExported names the exported functions that are expanded like unexported helpers (set by a
+// rule whose subject is the type these methods belong to: the observers of a container inside
+// the container's own methods).
+var InlineExported func(fn *types.Func) bool
+
 // inline evaluates a call of a pure, loop-free module function as an expression.
 func (b *builder) inline(call *ast.CallExpr, args []sym.Expr, st *state) (sym.Expr, bool) {
 	if Resolver == nil || b.inlineDepth > 3 {
@@ -544,7 +572,7 @@ func (b *builder) inline(call *ast.CallExpr, args []sym.Expr, st *state) (sym.Ex
 	}
 	// only unexported helpers of the package being analysed: exported functions and methods
 	// (Ring.IsFull, Bst.Max, RoundDigit, ...) are named operators with their own rules
-	if fn.Exported() {
+	if fn.Exported() && (InlineExported == nil || !InlineExported(fn.Origin())) {
 		return nil, false
 	}
 	decl, info := Resolver(fn.Origin())
